@@ -158,8 +158,10 @@ def roundtrip_mixed_precision(ctx, dim, n):
             if ctx.sym:
                 ctx.eq_array(f"restored_bit_exactly_with_single_precision_IO_and_double_data:{k}", arrs[1][k], prior[k])
             else:
-                ok = np.array_equal(arrs[1][k], prior[k])
-                ctx.claim(f"restored_bit_exactly_with_single_precision_IO_and_double_data:{k}[0]", ok) if ctx.target and ctx.target.startswith(f"restored_bit_exactly_with_single_precision_IO_and_double_data:{k}[") else None
+                if ctx.target is None or ctx.target.startswith(f"restored_bit_exactly_with_single_precision_IO_and_double_data:{k}["):
+                    ok = bool(np.array_equal(arrs[1][k], prior[k]))
+                    if not ok or ctx.replay_result is None:
+                        ctx.replay_result = (not ok, f"{k}: max |restored - saved| = {float(np.max(np.abs(arrs[1][k] - prior[k]))):.3e}")
     finally:
         if ctx.sym:
             fa.stub.SOURCE_IS_DOUBLE[0] = False
